@@ -302,6 +302,15 @@ class ExprMixin:
                 yield s2, self.binop(s2, node.op, a, b, node)
 
     def binop(self, st, op, a, b, node=None):
+        if isinstance(a, VObj) and a.classes != ('str',):
+            name = {ast.Sub: '__sub__', ast.Add: '__add__'}.get(type(op))
+            fm = self.repo.find_method(a.classes[0], name) if name else None
+            if fm is None or any(self.repo.find_method(c, name) != fm and self.repo.find_method(c, name)[1] is not fm[1] for c in a.classes):
+                raise Unsupported(f"operator {type(op).__name__} on objects of {a.classes}")
+            ci, fn = fm
+            outs = list(self.call_def(st, fn, ci.module, ci, [a, b], {}, node))
+            outs = self.merge(st, outs)
+            return outs[0][1]
         if isinstance(a, (VListRef, VList)) or isinstance(b, (VListRef, VList)):
             return self.list_binop(st, op, a, b)
         if isinstance(a, VTuple) and isinstance(b, VTuple) and isinstance(op, ast.Add):
